@@ -198,6 +198,8 @@ func Run(c *hx.Ctx) {
 	containRun(c)
 	// HTTP/2 server-side frame extraction (incl. payload parsers and HPACK) on malformed frames
 	h2Malformed(c)
+	// HPACK primitives through the real decoder
+	hpackCases(c)
 	// the header block decoder alone
 	seenKv := map[string]bool{}
 	kv := func(b []byte, how string) {
@@ -366,6 +368,118 @@ func h2Malformed(c *hx.Ctx) {
 			b[4] &= 0x2d
 		}
 		do(b, "random")
+	}
+}
+
+// hpackCase: the real hpack.Decoder.DecodeFull on one header block.
+func hpackCase(c *hx.Ctx, maxStr int, block []byte, how string) {
+	out := ""
+	var fields []hpack.HeaderField
+	var err error
+	var panicked bool
+	if withTimeout(func() {
+		d := hpack.NewDecoder(4096, nil)
+		d.SetMaxStringLength(maxStr)
+		_, panicked = hx.Safe(func() { fields, err = d.DecodeFull(append([]byte(nil), block...)) })
+	}) {
+		out = "hang"
+	} else if panicked {
+		out = "panic"
+	} else if err != nil {
+		out = "err"
+	} else {
+		var p []string
+		for _, f := range fields {
+			p = append(p, fmt.Sprintf("%d.%d", len(f.Name), len(f.Value)))
+		}
+		out = "ok:-"
+		if len(p) > 0 {
+			out = "ok:" + strings.Join(p, ",")
+		}
+	}
+	c.Emit("C08", fmt.Sprintf("hpack %d %s", maxStr, hx.Hex(block)), out)
+	c.Count("hpack." + how)
+	c.Count("hpack.outcome." + out[:2])
+}
+
+// varint encodes v with an n-bit prefix; pad > 0 appends non-minimal 0x80 continuation bytes.
+func varint(n uint, v uint64, pad int) []byte {
+	max := uint64(1)<<n - 1
+	if v < max && pad == 0 {
+		return []byte{byte(v)}
+	}
+	if v < max {
+		return []byte{byte(v)} // cannot pad a value that fits the prefix
+	}
+	b := []byte{byte(max)}
+	v -= max
+	for v >= 128 {
+		b = append(b, byte(v%128)|128)
+		v /= 128
+	}
+	for i := 0; i < pad; i++ {
+		b = append(b, byte(v)|128)
+		v = 0
+	}
+	return append(b, byte(v))
+}
+
+func hpackCases(c *hx.Ctx) {
+	seen := map[string]bool{}
+	do := func(mx int, b []byte, how string) {
+		k := fmt.Sprint(mx) + string(b)
+		if seen[k] {
+			return
+		}
+		seen[k] = true
+		hpackCase(c, mx, b, how)
+	}
+	lens := []int{0, 1, 2, 5, 16, 17, 100, 101, 126, 127, 128, 129, 254, 255, 256, 300}
+	for i := 0; i < c.N(150, 1500); i++ {
+		mx := c.Rng.Pick([]int{0, 0, 16, 100, 127, 128})
+		var block []byte
+		var cuts []int
+		for j := 1 + c.Rng.Intn(3); j > 0; j-- {
+			block = append(block, byte(c.Rng.Pick([]int{0x00, 0x10})))
+			for k := 0; k < 2; k++ {
+				l := c.Rng.Pick(lens)
+				pad := 0
+				if c.Rng.Chance(20) {
+					pad = 1 + c.Rng.Intn(3)
+				}
+				cuts = append(cuts, len(block))
+				block = append(block, varint(7, uint64(l), pad)...)
+				body := c.Rng.Bytes(l)
+				block = append(block, body...)
+			}
+		}
+		do(mx, block, "valid-or-too-long")
+		for k := 0; k < len(block); k += 1 + c.Rng.Intn(9) {
+			do(mx, block[:k], "truncated")
+		}
+		// corrupt one length: overflow run, huge, +1, -1
+		at := cuts[c.Rng.Intn(len(cuts))]
+		for _, repl := range [][]byte{
+			{0x7f, 0x80, 0x80, 0x80, 0x80, 0x80, 0x80, 0x80, 0x80, 0x80, 0x01},
+			{0x7f, 0xff, 0xff, 0xff, 0xff, 0xff, 0xff, 0xff, 0xff, 0x7f},
+			{0x7f, 0xff, 0xff, 0xff, 0x0f},
+			{0x7f}, {0x7f, 0x80}, {block[at] + 1}, {block[at] - 1}, {0x00}, {0xff, 0x00},
+		} {
+			m := append(append(append([]byte(nil), block[:at]...), repl...), block[at+1:]...)
+			do(mx, m, "length-corrupted")
+		}
+	}
+	for i := 0; i < c.N(300, 5000); i++ {
+		b := c.Rng.Bytes(1 + c.Rng.Intn(30))
+		if c.Rng.Chance(70) {
+			b[0] = byte(c.Rng.Pick([]int{0x00, 0x10}))
+			for j := 1; j < len(b); j++ {
+				if c.Rng.Chance(50) {
+					b[j] = byte(c.Rng.Pick([]int{0, 1, 2, 3, 0x7f, 0x80, 0xff}))
+				}
+			}
+		}
+		do(c.Rng.Pick([]int{0, 8}), b, "random")
 	}
 }
 
